@@ -41,6 +41,8 @@ class LInner(AwareASTNode):
     un: LLeaf | LLeafB | None = None
     oseq: tuple[AwareASTNode, ...] | None = None
     v: int = 0
+    # a class attribute (no field) that holds a node, e.g. a shared sentinel: no child of anybody
+    EMPTY: typing.ClassVar[typing.Any] = None
 
 
 @dataclass
@@ -78,6 +80,11 @@ class LDyn(AwareASTNode):
 class LReq(AwareASTNode):
     req: AwareASTNode
     v: int = 0
+
+
+from pyoak.origin import NO_ORIGIN as _NO_ORIGIN
+
+LInner.EMPTY = LLeaf(v=99, origin=_NO_ORIGIN, create_detached=True)
 '''
 
 CHILD_FIELDS = {
